@@ -94,7 +94,7 @@ fn c38_small() {
 /// serde_json's text parser is outside the claim (DESIGN C38): replaced by "always a syntax
 /// error" so that only the framing is exercised.
 pub fn from_slice_stub<'a, T: serde::Deserialize<'a>>(_v: &'a [u8]) -> serde_json::Result<T> {
-    Err(<serde_json::Error as serde::de::Error>::custom("stub"))
+    Err(serde_json::Error::io(std::io::Error::from(std::io::ErrorKind::InvalidData)))
 }
 
 // ------------------------------------------------------------------------------------------
